@@ -147,7 +147,10 @@ def real_failures(chk, rounds):
     for r in range(rounds):
         # the last two: the task removes its own output directory (so that nothing can be recorded into it afterwards)
         # and then fails / succeeds -- with options declared, so that Conductor has something to write there (D31)
-        how = ["exit 3 #", "kill -KILL $$ #", "kill -SEGV $$ #", "kill -TERM $$ #", 'rm -rf "$COND_OUT"; exit 3 #', 'rm -rf "$COND_OUT"; exit 0 #'][r % 6]
+        # `kill -TERM 0`: the task signals its whole process group (what `trap 'kill 0' EXIT` does) -- which must not contain
+        # Conductor (seed C03/i: a task without a slot was started in Conductor's own session)
+        how = ["exit 3 #", "kill -KILL $$ #", "kill -SEGV $$ #", "kill -TERM $$ #", 'rm -rf "$COND_OUT"; exit 3 #', 'rm -rf "$COND_OUT"; exit 0 #',
+               "sleep 5 & kill -TERM 0 #", "sleep 5 & kill -TERM 0 #"][r % 8]
         jobs = [None, "2"][r % 2]
         par = jobs is not None
         mark = "touch $COND_OUT/ran"
@@ -371,6 +374,112 @@ def failures_do_not_exhaust_descriptors(chk):
             chk.coverage["traces_validated_against_impl"] += 1
 
 
+def twin_names_slots(chk):
+    """"tasks running concurrently always carry distinct COND_SLOT values": two parallelizable tasks with the SAME NAME in
+    different packages (//a:run, //b:run) run together under --jobs 2 while a third waits for a slot; whichever twin started
+    first finishes first, and the third task starts while the other twin still runs: it must get the slot that was given
+    back, not the one the running twin holds.  (Seed C04/i: the executor remembered the slot of a running task under its
+    NAME, so the twins shared one entry.)"""
+    import os
+    import implrun
+    from implrun import strip_ansi
+
+    root = implrun.make_project({"COND": ""})
+    log = os.path.join(root, "events.log")
+    lock = os.path.join(root, "first.lock")
+    twin = ('echo S %%s ${COND_SLOT-unset} >> %s; if mkdir %s 2>/dev/null; then sleep 0.4; else sleep 2.0; fi; echo E %%s >> %s' % (log, lock, log))
+    last = 'echo S last ${COND_SLOT-unset} >> %s; sleep 0.3; echo E last >> %s' % (log, log)
+    files = {"a/COND": 'run_command(name="run", run="%s", parallelizable=True)\n' % (twin % ("a", "a")),
+             "b/COND": 'run_command(name="run", run="%s", parallelizable=True)\n' % (twin % ("b", "b")),
+             "COND": 'run_command(name="last", run="%s", parallelizable=True)\ngroup(name="all", deps=["//a:run", "//b:run", ":last"])\n' % last}
+    for rel, text in files.items():
+        os.makedirs(os.path.dirname(os.path.join(root, rel)), exist_ok=True)
+        open(os.path.join(root, rel), "w").write(text)
+    res = implrun.run_cond(["run", "//:all", "-j", "2"], root, timeout=60)
+    chk.coverage["evaluations"] += 1
+    chk.count("real-slots", "twin names, jobs=2")
+    text = strip_ansi(res.out + res.err)
+    problems = []
+    if res.code != 0:
+        problems.append("harness: cond run exited %s: %s" % (res.code, text[-300:]))
+    try:
+        evs = [l.split() for l in open(log).read().splitlines()]
+    except OSError:
+        evs = []
+    running = {}
+    for ev in evs:
+        if ev[0] == "S":
+            tag, slot = ev[1], ev[2]
+            if not (slot.isdigit() and 0 <= int(slot) < 2):
+                problems.append("parallelizable task %s under --jobs 2 saw COND_SLOT=%s" % (tag, slot))
+            elif slot in running.values():
+                problems.append("COND_SLOT=%s handed to %s while %s still runs with it" % (slot, tag, [t for t, sl in running.items() if sl == slot][0]))
+            if len(running) + 1 > 2:
+                problems.append("3 tasks running at once under --jobs 2")
+            running[tag] = slot
+        else:
+            running.pop(ev[1], None)
+    if res.code == 0 and sorted(e[1] for e in evs if e[0] == "S") != ["a", "b", "last"]:
+        problems.append("harness: tasks that ran: %r" % (evs,))
+    for msg in problems[:3]:
+        chk.violation("impl-violation", "real processes, //a:run and //b:run (same name) in flight with //:last waiting for a slot, --jobs 2: %s" % msg,
+                      {"input": {"scenario": "twin-names-slots", "files": files, "argv": ["run", "//:all", "-j", "2"]}, "impl_observation": {"exit": res.code, "events": evs, "output": text[-500:]}, "oracle_verdict": msg},
+                      match_key={"real": "twin-names-slots"}, size=3)
+    if not problems:
+        chk.coverage["traces_validated_against_impl"] += 1
+
+
+def stop_early_on_a_failure_with_status_0(chk):
+    """--stop-early and a failure that is not a non-zero exit status: an experiment removes its own output directory and exits
+    0 -- Conductor makes it a failed task (nothing can be recorded, D31 / D38).  That failure must stop the run like any
+    other: nothing is started after it has been observed and the task still running is sent SIGTERM.  (Seed C03/j:
+    `--stop-early` looked at the return code of the finished process instead of at whether the operation failed.)"""
+    import os
+    import time
+    import implrun
+    from implrun import strip_ansi
+
+    root = implrun.make_project({"COND": ""})
+    log = os.path.join(root, "events.log")
+    cond = ('run_experiment(name="slow", run="echo S slow >> %s; sleep 6; touch %s/slow.done", parallelizable=True)\n' % (log, root)
+            + 'run_experiment(name="selfclean", run="echo S selfclean >> %s; while ! grep -q slow %s; do sleep 0.05; done; rm -rf $COND_OUT; echo E selfclean >> %s; exit 0", parallelizable=True)\n' % (log, log, log)
+            + 'run_experiment(name="queued", run="echo S queued >> %s; sleep 0.2", parallelizable=True)\n' % log
+            + 'group(name="root", deps=[":slow", ":selfclean", ":queued"])\n')
+    open(os.path.join(root, "COND"), "w").write(cond)
+    t0 = time.time()
+    res = implrun.run_cond(["run", "//:root", "--stop-early", "-j", "2"], root, timeout=60)
+    took = time.time() - t0
+    chk.coverage["evaluations"] += 1
+    chk.count("real", "stop-early, failure with status 0")
+    text = strip_ansi(res.out + res.err)
+    try:
+        evs = [l.split() for l in open(log).read().splitlines()]
+    except OSError:
+        evs = []
+    order = [" ".join(e) for e in evs]
+    problems = []
+    if "S selfclean" not in order or "E selfclean" not in order:
+        problems.append("harness: //:selfclean did not run (%r, %s)" % (order, text[-200:]))
+    else:
+        if res.code == 0 or res.code < 0:
+            problems.append("cond run exited %s" % res.code)
+        time.sleep(0.3)
+        if os.path.exists(os.path.join(root, "slow.done")) or took > 5.0:
+            problems.append("//:slow, which was running when the failure was observed, was not terminated (cond run took %.1f s, slow ran to its end: %s)" % (took, os.path.exists(os.path.join(root, "slow.done"))))
+        if "S queued" in order and order.index("S queued") > order.index("E selfclean") and "S slow" in order and order.index("S slow") < order.index("E selfclean"):
+            # (queued can only have been waiting for a slot if both others had started before)
+            problems.append("//:queued was started after the failure of //:selfclean had been observed")
+        if implrun.index_rows(root) and any(r[0] == "//:selfclean" for r in implrun.index_rows(root)):
+            problems.append("a version was recorded for //:selfclean")
+    for msg in problems:
+        chk.violation("impl-violation", "real processes, --stop-early -j 2, an experiment fails with exit status 0 (it removed its output directory): %s" % msg,
+                      {"input": {"scenario": "stop-early-status-0", "cond": cond, "argv": ["run", "//:root", "--stop-early", "-j", "2"]},
+                       "impl_observation": {"exit": res.code, "seconds": round(took, 1), "events": order, "output": text[-800:]}, "oracle_verdict": msg},
+                      match_key={"real": "stop-early-status-0"}, size=3)
+    if not problems:
+        chk.coverage["traces_validated_against_impl"] += 1
+
+
 def real_slots(chk, rounds):
     """real `cond run` processes over a project that declares its tasks in every available form (run_command,
     run_experiment, the instances of run_experiment_group), with mixed `parallelizable` flags: each task logs its start
@@ -479,7 +588,7 @@ def run_prop(prop, tier, seed, replay=None, extra_oracles=(), extra_part=None, e
         cases = cases[len(cases) // 4:]
     run_cases(chk, cases, oracles)
     if prop in ("C03", "C01"):
-        real_failures(chk, 6 if tier == "quick" else 24)
+        real_failures(chk, 8 if tier == "quick" else 24)
         from reaper_util import unrelated_child
 
         for hrc, trc in ((0, 3), (5, 0)):
@@ -497,8 +606,10 @@ def run_prop(prop, tier, seed, replay=None, extra_oracles=(), extra_part=None, e
         unlaunchable_tasks(chk)
     if prop == "C03":
         failures_do_not_exhaust_descriptors(chk)
+        stop_early_on_a_failure_with_status_0(chk)
     if prop == "C04":
         real_slots(chk, 4 if tier == "quick" else 24)
+        twin_names_slots(chk)
         from reaper_util import stopped_task
 
         for par in (False, True):     # a stopped task still occupies its slot / still excludes the others
